@@ -109,6 +109,9 @@ func (h *hist) newPlan(k int) *plan {
 	case kMixed:
 		pl.pids = []int64{h.newID(), h.newID()}
 		pl.x = h.rng.Int63()
+	case kArr:
+		pl.pids = []int64{h.newID(), h.newID(), h.newID()}
+		pl.x = h.rng.Int63()
 	case kPlain:
 		pl.x, pl.y = h.rng.Int63(), h.rng.Int63()
 	case kTag:
